@@ -870,7 +870,7 @@ func TestVerifC41(t *testing.T) {
 	a := &vfC41A{}
 	a.connect(env, m, rep)
 
-	nseq := vk.N(2000, 80000)
+	nseq := vk.N(6000, 80000)
 	var selfTokens []string
 	for seq := 0; seq < nseq; seq++ {
 		r := vk.RandFor(41, seq)
